@@ -68,3 +68,7 @@ def run(ctx):
     ctx.floor("K6", 2)
     ctx.floor("E5", 4)
     ctx.floor("E7", 3)
+    # an equivalence walked backwards is the reversal of the original rule at the kept child's own position
+    from ..engines import varkind as VK
+    VK.v6b_kept_child_position(ctx)
+    ctx.floor("V6", 2)
